@@ -81,7 +81,26 @@ func (e *Emitter) stringable(elems []*rt.Term) (string, bool) {
 	return sb.String(), len(elems) > 0
 }
 
-// strChar: characters used in string-like lists (letters that may stand unescaped in a double-quoted literal)
+// charsOrCodes: the text and kind ("chars" / "codes") of a non-empty list of one-character atoms or of codes.
+func charsOrCodes(elems []*rt.Term) (string, string) {
+	var sb strings.Builder
+	kind := ""
+	for _, el := range elems {
+		switch {
+		case el.K == rt.Atom && len([]rune(el.S)) == 1 && StrChar([]rune(el.S)[0]) && kind != "codes":
+			kind = "chars"
+			sb.WriteString(el.S)
+		case el.K == rt.Int && StrChar(rune(el.I)) && kind != "chars":
+			kind = "codes"
+			sb.WriteRune(rune(el.I))
+		default:
+			return "", ""
+		}
+	}
+	return sb.String(), kind
+}
+
+// StrChar: characters used in string-like lists (letters that may stand unescaped in a double-quoted literal)
 func StrChar(r rune) bool {
 	return r >= 'a' && r <= 'z' || r == 'é' || r == '日' || r == '本'
 }
@@ -121,6 +140,9 @@ func (e *Emitter) Emit(t *rt.Term) string {
 	proper := rest.IsAtom("[]")
 	str, isStr := e.stringable(elems)
 	r := e.next()
+	if _, kind := charsOrCodes(elems); kind != "" && !isStr && proper && r%2 == 0 {
+		r = recAtomChars // a list of the other string kind (chars under codes or the reverse)
+	}
 	if isStr {
 		// a string-like list: prefer the string representations (they are what the property singles out)
 		switch r % 4 {
@@ -155,14 +177,11 @@ func (e *Emitter) Emit(t *rt.Term) string {
 			return "\"" + str + "\""
 		}
 	case recAtomChars:
-		if isStr && proper {
+		// atom_chars/2 for a list of one-character atoms, atom_codes/2 for a list of codes, whatever the flag
+		if txt, kind := charsOrCodes(elems); kind != "" && proper {
 			use("atom_chars_codes")
 			l := e.fresh()
-			p := "atom_chars"
-			if e.DQ == "codes" {
-				p = "atom_codes"
-			}
-			*e.Prelude = append(*e.Prelude, fmt.Sprintf("%s(%s, %s)", p, str, l))
+			*e.Prelude = append(*e.Prelude, fmt.Sprintf("atom_%s(%s, %s)", kind, rt.QuoteAtom(txt), l))
 			return l
 		}
 	case recUniv:
